@@ -1013,8 +1013,8 @@ package yqlib
 //@   requires d != nil && validCtx(context) && expressionNode != nil && expressionNode.LHS != nil && expressionNode.RHS != nil && expressionNode.LHS.Operation != nil && expressionNode.RHS.Operation != nil
 //@   requires expressionNode.LHS.Operation.OperationType != nil && expressionNode.RHS.Operation.OperationType != nil
 //@   readonly-if context.DontAutoCreate
-//@   at getSliceNumber#2: assert @slice-start {C01} relativeFirstNumber == sliceFrom(firstNumber, len(lhsNode.Content)) // the bounds are expressions: the second may change the array
-//@   at AddChildren: assert @slice-end {C01} relativeSecondNumber == sliceTo(secondNumber, len(lhsNode.Content))
+//@   at getSliceNumber#2: assert @slice-start {C01,C11} relativeFirstNumber == sliceFrom(firstNumber, len(lhsNode.Content)) // the bounds are expressions: the second may change the array
+//@   at AddChildren: assert @slice-end {C01,C11} relativeSecondNumber == sliceTo(secondNumber, len(lhsNode.Content))
 //@   at AddChildren: assert @slice-length {C01} len(newResults) == ite(relativeSecondNumber > relativeFirstNumber, relativeSecondNumber - relativeFirstNumber, 0)
 //@   at AddChildren: assert @slice-elements {C01} forall(j, 0, len(newResults), newResults[j] == lhsNode.Content[relativeFirstNumber + j])
 //@   at AddChildren: assert @new-sequence {C01} sliceArrayNode != nil && sliceArrayNode.Kind == SequenceNode && len(sliceArrayNode.Content) == 0 && sliceArrayNode.Tag == lhsNode.Tag
